@@ -40,6 +40,12 @@ type c14Scn struct {
 	Recs   []recShape `json:"recs"`
 	IDs    []uint16   `json:"ids"`
 	Faults bool       `json:"faults"`
+	// TimeBase, if non-zero, is the repository's most recent addition timestamp
+	// at the start (seconds; values around 2^31 are the year 2038)
+	TimeBase uint32 `json:"timebase,omitempty"`
+	// BMCOutSeq, if non-zero, is where the BMC's own session sequence numbering
+	// stands when the retrieval starts
+	BMCOutSeq uint32 `json:"bmc_out_seq,omitempty"`
 }
 
 type c14Replay struct {
@@ -101,6 +107,9 @@ func buildRecord(id uint16, s recShape, seed byte) []byte {
 
 func c14Repo(scn c14Scn) *ref.Repo {
 	r := &ref.Repo{LastAdd: 5000, LastErase: 4000}
+	if scn.TimeBase != 0 {
+		r.LastAdd, r.LastErase = scn.TimeBase, scn.TimeBase-1000
+	}
 	for i, s := range scn.Recs {
 		r.Recs = append(r.Recs, ref.SDRRec{ID: scn.IDs[i], Data: buildRecord(scn.IDs[i], s, byte(i+1))})
 	}
@@ -132,6 +141,11 @@ func c14Exec(scn c14Scn, ch *env.Chooser) *c14Obs {
 	if err != nil {
 		o.Err = "handshake: " + err.Error()
 		return o
+	}
+	if scn.BMCOutSeq != 0 {
+		if bs := w.BMC.Sessions[cfg.SIDC]; bs != nil {
+			bs.OutSeq = scn.BMCOutSeq
+		}
 	}
 	w.T.Ch = ch
 	// like the real transport: every reply is a window into one reused buffer
@@ -325,7 +339,7 @@ func runC14(r *rep.R) {
 	}
 	var idx int64
 	run := func(scn c14Scn, bound int) {
-		tag := fmt.Sprintf("c14/%v/%v/%v", scn.Recs, scn.IDs, scn.Faults)
+		tag := fmt.Sprintf("c14/%v/%v/%v/%x/%x", scn.Recs, scn.IDs, scn.Faults, scn.TimeBase, scn.BMCOutSeq)
 		e := &env.Explorer{R: r, Bound: bound, Scenario: tag, Idx: &idx,
 			Run: func(ch *env.Chooser) any { return c14Exec(scn, ch) }}
 		e.Check = func(ch *env.Chooser, obs any) {
@@ -405,6 +419,18 @@ func runC14(r *rep.R) {
 			kk = 2
 		}
 		run(scn, kk)
+	}
+	// the same with the repository's clock about to pass 2^31 seconds, and with
+	// the BMC's own sequence numbering about to wrap
+	for _, tb := range []uint32{0x7FFFFFFF, 0x80000005} {
+		scn := faultRepos[1]
+		scn.TimeBase = tb
+		run(scn, 1)
+	}
+	for _, out := range []uint32{0xFFFFFFFA, 0xFFFFFFFF} {
+		scn := faultRepos[2]
+		scn.BMCOutSeq = out
+		run(scn, 1)
 	}
 	if thorough(r) {
 		// three modifications during one call on the small repositories, two on larger ones
